@@ -252,6 +252,18 @@ func (w *Workload) GenDocCmd(r *model.Rand, big bool) Base {
 	if big {
 		o.MaxInsts = 120
 	}
+	if r.Chance(1, 40) {
+		// a hundred or two instances (enough for work to be split per CPU)
+		o.MaxInsts = 8
+		d0 := model.GenDoc(r, o)
+		want := 120 + r.Intn(120)
+		for len(d0.Insts) < want {
+			d0.Insts = append(d0.Insts, model.GenDoc(r, o).Insts...)
+		}
+		d0.Insts = d0.Insts[:want]
+		argv := model.Pick(r, [][]string{{"write", "parse"}, {"write", "conv", "-c", "cmt"}, {"write", "event"}, {"write"}})
+		return Base{Argv: append([]string{}, argv...), Input: []byte(d0.YAML(r.Intn(2))), InputArg: true, Class: "doc", Tracks: 1}
+	}
 	if r.Chance(1, 150) {
 		// several hundred instances: outputs of a few hundred KiB
 		o.MaxInsts = 900
